@@ -155,6 +155,10 @@ func main() {
 		code := cmdCheck(os.Args[2:])
 		pprof.StopCPUProfile()
 		os.Exit(code)
+	case "replay":
+		os.Exit(cmdReplay(os.Args[2:]))
+	case "version":
+		fmt.Println("gosym (go/ssa symbolic interpreter, SMT-decided)")
 	case "check-old":
 		os.Exit(cmdCheck(os.Args[2:]))
 	default:
@@ -422,7 +426,7 @@ func writeEvidence(prop, tier string, seed int, spec *Spec, w *World, workers []
 	for _, o := range spec.Outside {
 		assumptions = append(assumptions, "outside the claim: "+o)
 	}
-	assumptions = append(assumptions, "engine: gosym (own go/ssa symbolic interpreter) is trusted; z3 4.8.12 is trusted; Go semantics as modelled in /verif/DESIGN.md §2")
+	assumptions = append(assumptions, "engine: gosym (own go/ssa symbolic interpreter) is trusted; z3 5.1.0 (z3-new) is trusted, with z3 4.8.12 / cvc5 1.0 re-deciding queries it leaves unknown; Go semantics as modelled in /verif/DESIGN.md §2")
 	ev := map[string]interface{}{
 		"property_id": prop,
 		"tier":        tier,
